@@ -92,7 +92,7 @@ theorem parseSlots_window (rec : Rec) (el elSize p : Nat) (buf : Bytes) (start c
   rw [hwin, haddr]
   exact h i hic hi'
 
-/-- **VecDeque end to end** (EVERY capacity, also above CAP_GUARD; repaired by 6655f7c): header says `len = n ≤ LEN_GUARD`,
+/-- **VecDeque end to end** (EVERY capacity, also above CAP_GUARD; repaired by 26a941a): header says `len = n ≤ LEN_GUARD`,
     `head`, capacity `cap`, pointer `p`; the memory at `p` holds the ring buffer `buf` (`cap` slots); the element decoder
     shows `items[i]` on the image in slot `(head + i) % cap` of the buffer ⇒ the deque is shown as exactly `items`, in
     logical order — for every ring position, wrapped or not.  Only the shown capacity goes through `guard_cap`. -/
